@@ -62,11 +62,13 @@ def run(tier, seed):
         sents[(json.dumps(b["sent"]), b["prefix"])] = b
     for (s, prefix), b in sents.items():
         total = len(b["wire"])
-        scheds = [[1] * (total + 5), [total + 10], [2, 0, 1, 0, 3] * total, [0, 1] * (total + 2)]
+        scheds = [[1] * (total + 5), [total + 10], [2, 0, 1, 0, 3] * total, [0, 1] * (total + 2), [3] * (total + 5), [4, 0] * (total + 5), [5] * (total + 5), [7, 1] * (total + 5)]
         for _ in range(20 if thorough else 5):
             scheds.append([rng.choice([0, 1, 1, 2, 3, 5]) for _ in range(3 * total)] + [1000])
         for sc in scheds:
-            writes.append({"kind": "write", "prefix": prefix, "sent": b["sent"], "sched": sc, "wire": b["wire"]})
+            # a writer may accept any non-empty prefix of what it is offered -- also of a gathered (vectored) write
+            for vectored in (False, True):
+                writes.append({"kind": "write", "prefix": prefix, "sent": b["sent"], "sched": sc, "wire": b["wire"], "vectored": vectored})
     # ---- the same message sequences over real sockets through FramedTransport (transport.rs): a 2-byte-prefix part followed by a
     # 4-byte-prefix part in one stream, delivered in one piece / in small pieces; after the first part the reader either switches the
     # transport's mode or takes the read half and goes on with a MessageDeframer of its own (what Connection and Node do)
@@ -117,7 +119,7 @@ def run(tier, seed):
             continue
         if r["kind"] == "write":
             v.case("w" + json.dumps([r["sent"], r["sched"], r["prefix"]]))
-            case = {"messages": r["sent"], "prefix_bytes": r["prefix"], "write_sizes": r["sched"][:40]}
+            case = {"messages": r["sent"], "prefix_bytes": r["prefix"], "write_sizes": r["sched"][:40], "writer_gathers": r.get("vectored", False)}
             if o["err"]:
                 v.violation("write_framed failed under partial writes", {**case, "err": o["err"]})
             if o["streamed"] != r["wire"]:
